@@ -179,6 +179,23 @@ var NameShapes = [][]string{
 	{"T", "|", "where", "a", "|", "join", "(", "U", "|", "as", "?", "|", "as", "?", ")", "on", "a"},
 }
 
+// H_C05chain: a user-chosen name spelled like a generated one, followed by n further
+// subqueries (n up to nmax): the generated names must stay unique however far the indexes run.
+func H_C05chain(k, nmax int) {
+	n := verif.Concrete(verif.IntRange(0, nmax+1))
+	names := []string{"__subquery0", "__subquery1", "__subquery2", "__subquery1_", "__subquery12"}
+	src := "T | as " + names[k]
+	for i := 0; i < n; i++ {
+		src += " | where a"
+	}
+	if verif.Bool() {
+		src += " | as __subquery1"
+	}
+	verif.Obs("program", src)
+	CheckCompiledStatement(src)
+	verif.Cover("chain-checked")
+}
+
 // H_C05names checks the name-collision shapes.
 func H_C05names(s int) {
 	vocab := Vocab(5)
